@@ -7,8 +7,8 @@ P = "pool.py"
 V = []
 
 
-def v(name, edits, expect, tier="quick"):
-    V.append({"name": name, "edits": edits, "props": list(expect), "expect": expect, "tier": tier})
+def v(name, edits, expect, tier="quick", base=""):
+    V.append({"name": name, "edits": edits, "props": list(expect), "expect": expect, "tier": tier, "base": base})
 
 
 ACQ = "        await self._enough_room.acquire()\n"
@@ -973,5 +973,46 @@ v("P-ok-text-hoisted-to-module-constant", [(SESS, "log = logging.getLogger(__nam
 PARSER = "control/parser.py"
 v("omit-params-default-misspelt", [(PARSER, 'OMIT_PARAMS_DEFAULT = ("self",)', 'OMIT_PARAMS_DEFAULT = ("selfx",)')], {"C17": "R17.10"})
 v("omit-params-default-empty", [(PARSER, 'OMIT_PARAMS_DEFAULT = ("self",)', 'OMIT_PARAMS_DEFAULT = ()')], {"C17": "R17.10"})
+
+# a module-level text helper with parameters: the holes of its template are what each call passes (rf110)
+SUFFIXED = LOGLINE + "\n\ndef _suffixed(base: str, suffix: object) -> str:\n    return f\"{base}-{suffix}\"\n"
+SUFFIXED_BAD = LOGLINE + "\n\ndef _suffixed(base: str, suffix: object) -> str:\n    return f\"{base}_{suffix}\"\n"
+STR_BODY = '        return f"{self.__class__.__name__}-{self._name or self._idx}"\n'
+START_NAME = '        group_name = f"start-group-{self._start_calls}"\n'
+v("P-suffixed-helper-for-names", [(P, LOGLINE, SUFFIXED), (P, STR_BODY, "        return _suffixed(self.__class__.__name__, self._name or self._idx)\n"),
+                                  (P, START_NAME, '        group_name = _suffixed("start-group", self._start_calls)\n')], {"C10": "ok", "C11": "ok"})
+v("suffixed-helper-underscore", [(P, LOGLINE, SUFFIXED_BAD), (P, STR_BODY, "        return _suffixed(self.__class__.__name__, self._name or self._idx)\n"),
+                                 (P, START_NAME, '        group_name = _suffixed("start-group", self._start_calls)\n')], {"C10": "R10.3", "C11": "R11.2"})
+v("suffixed-helper-args-swapped", [(P, LOGLINE, SUFFIXED), (P, START_NAME, '        group_name = _suffixed(self._start_calls, "start-group")\n')], {"C10": "R10.3"})
+v("suffixed-helper-wrong-counter", [(P, LOGLINE, SUFFIXED), (P, START_NAME, '        group_name = _suffixed("start-group", self._num_started)\n')], {"C10": "R10.3"})
+
+# the spawner loops fed by a generator helper and the spawner tasks made by a helper given a lambda (rf102): the loop over the generator is
+# replaced by the generator's body (normaliser), so the iteration rules read it like the direct loop - and catch its broken siblings
+GEN_ELSE = "            else:\n                yield i, coroutine\n"
+v("P-generator-fed-spawners", [], {"C01": "ok", "C04": "ok", "C05": "ok", "C07": "ok", "C09": "ok", "C10": "ok", "C12": "ok"}, base="rf102")
+v("generator-yields-after-failure-too", [(P, "                log_failure(e, item)\n" + GEN_ELSE, "                log_failure(e, item)\n                coroutine = None\n            yield i, coroutine\n")],
+  {"C04": "viol", "C12": "viol"}, base="rf102")
+v("generator-calls-user-function-twice", [(P, "                coroutine = make_coroutine(item)\n", "                make_coroutine(item)\n                coroutine = make_coroutine(item)\n")],
+  {"C04": "viol", "C05": "viol"}, base="rf102")
+v("generator-over-one-more-than-num", [(P, "            range(num), make_coroutine, log_failure\n", "            range(num + 1), make_coroutine, log_failure\n")], {"C04": "viol"}, base="rf102")
+v("generator-drains-iterable-first", [(P, "        for i, item in enumerate(items):\n            try:\n                coroutine = make_coroutine(item)", "        for i, item in enumerate(list(items)):\n            try:\n                coroutine = make_coroutine(item)")],
+  {"C05": "viol"}, base="rf102")
+v("generator-skips-first-item", [(P, "        for i, item in enumerate(items):\n            try:\n                coroutine = make_coroutine(item)", "        for i, item in enumerate(items):\n            if i == 0:\n                continue\n            try:\n                coroutine = make_coroutine(item)")],
+  {"C04": "viol", "C05": "viol"}, base="rf102")
+v("lambda-factory-called-twice", [(P, "        meta_tasks.add(create_task(get_meta_coroutine()))\n", "        meta_tasks.add(create_task(get_meta_coroutine()))\n        meta_tasks.add(create_task(get_meta_coroutine()))\n")],
+  {"C04": "viol", "C10": "viol"}, base="rf102")
+v("lambda-factory-before-registration", [(P, "        if group_name in self._task_groups:\n            raise TaskGroupAlreadyExists(group_name)\n        self._task_groups[group_name] = TaskGroupRegister()\n        meta_tasks = self._group_meta_tasks_running.setdefault(\n            group_name, set()\n        )\n        meta_tasks.add(create_task(get_meta_coroutine()))\n",
+   "        task = create_task(get_meta_coroutine())\n        if group_name in self._task_groups:\n            raise TaskGroupAlreadyExists(group_name)\n        self._task_groups[group_name] = TaskGroupRegister()\n        meta_tasks = self._group_meta_tasks_running.setdefault(\n            group_name, set()\n        )\n        meta_tasks.add(task)\n")],
+  {"C09": "viol"}, base="rf102")
+
+# cancel targets looked up in a combined view of registries (round 9, C03i): a view over the running registry alone is fine,
+# one that also shows tasks filed as cancelled lets a group cancel interrupt a cancel callback in progress
+IS_FULL_PROP = "    @property\n    def is_full(self) -> bool:\n"
+CANCEL_LOOKUP = "                self._tasks_running[group_reg.pop()].cancel(**cancel_kw)\n"
+v("P-cancel-through-running-only-view", [(P, IS_FULL_PROP, "    @property\n    def _tasks_live(self) -> Dict[int, Task[Any]]:\n        return {**self._tasks_running}\n\n" + IS_FULL_PROP),
+                                         (P, CANCEL_LOOKUP, "                self._tasks_live[group_reg.pop()].cancel(**cancel_kw)\n")], {"C03": "ok", "C07": "ok"})
+v("cancel-through-running-and-cancelled-view", [(P, IS_FULL_PROP, "    @property\n    def _tasks_live(self) -> Dict[int, Task[Any]]:\n        return {**self._tasks_running, **self._tasks_cancelled}\n\n" + IS_FULL_PROP),
+                                                (P, CANCEL_LOOKUP, "                self._tasks_live[group_reg.pop()].cancel(**cancel_kw)\n")], {"C03": "R03.8"})
+v("cancel-through-union-of-running-and-ended", [(P, CANCEL_LOOKUP, "                (self._tasks_running | self._tasks_ended)[group_reg.pop()].cancel(**cancel_kw)\n")], {"C03": "R03.8"})
 
 VARIANTS = V
